@@ -10,8 +10,9 @@ Three harness families, all on the REAL `Builder.build` (parse + `House.resolve`
                   up to 3 thorough; the alphabet contains the empty token, so shorter lines too).
 * relations/*     frame-relation graphs: N frames whose `in` / `over` / `under` target is a symbolic
                   index over {none, every frame including itself, an undefined frame}; and
-                  clone-relation graphs: moot framers whose frames clone moot framers (`aux x as t`)
-                  including themselves and each other.
+                  clone-relation graphs: an active framer clones a moot framer, and 2 or 3 moot framers'
+                  frames clone moot framers (`aux x as t|mine`) including themselves and each other
+                  (self-clones, 2-cycles and 3-cycles reachable from the active framer).
 
 Oracle (exactly the statement): the call returns (True or False) or raises ParseError /
 ResolveError / a ValueError coming out of the literal converters; anything else escaping, or the
@@ -279,19 +280,20 @@ def h_frames(sym, n, first_opt, kinds=("in", "over", "under")):
     return judge(sym, r, " / ".join(desc))
 
 
-def h_clones(sym, m):
-    """main framer ff + m moot framers m0..; ff's frame clones one moot; each moot's frame has an
-    optional `aux <target> as <tag>` with target over the moots (incl. itself), the aux framer fx, ff, zz"""
-    targets = ["m%d" % i for i in range(m)] + ["fx", "ff", "zz"]
+def h_clones(sym, m, others=True, main=None):
+    """main (active) framer ff + m moot framers m0..; ff's frame clones one moot; each moot's frame has an
+    optional `aux <target> as <tag>` with target over the moots (incl. itself: self-clones, 2-cycles, ...
+    m-cycles reachable from the non-moot framer) and, with others=True, the aux framer fx, ff and zz"""
+    targets = ["m%d" % i for i in range(m)] + (["fx", "ff", "zz"] if others else [])
     lines = ["house h1", "framer fx be aux first xa", "  frame xa",
              "framer ff be active first fa", "  frame fa"]
-    t0 = targets[sym.choice("main", len(targets))]
+    t0 = targets[sym.choice("main", len(targets)) if main is None else main]
     tag0 = ("c0", "mine")[sym.choice("maintag", 2)]
     lines.append("    aux %s as %s" % (t0, tag0))
     desc = ["ff: aux %s as %s" % (t0, tag0)]
     for i in range(m):
         lines += ["framer m%d be moot first a%d" % (i, i), "  frame a%d" % i]
-        o = sym.choice("moot%d" % i, 1 + 2 * len(targets))
+        o = fb.pick(sym, "moot%d" % i, 1 + 2 * len(targets))
         if o:
             tagi, j = divmod(o - 1, len(targets))
             tag = ("t%d" % i, "mine")[tagi]
@@ -385,9 +387,19 @@ def obligations(tier):
                           budget=2400, per_path=60, hang_s=60, max_fail_keys=60,
                           bounds=dict(frames=4, relation_per_frame="none | in T | under T (`over T` stores the same "
                                       "link as `in T`)", targets="every frame incl. itself + undefined")))
-    out.append(Ob("relations/clones", h_clones, dict(m=1 if quick else 2),
-                  budget=300 if quick else 900, per_path=60, hang_s=60, max_fail_keys=60,
-                  bounds=dict(moot_framers=1 if quick else 2,
-                              clone_line_per_moot="none | aux T as tag | aux T as mine",
-                              targets="every moot incl. itself, an aux framer, the main framer, undefined")))
+    cb = dict(clone_line_per_moot="none | aux T as tag | aux T as mine")
+    out.append(Ob("relations/clones2", h_clones, dict(m=2),
+                  budget=400 if quick else 900, per_path=60, hang_s=60, max_fail_keys=60,
+                  bounds=dict(cb, moot_framers=2, targets="every moot incl. itself (self-clones and 2-cycles), an aux "
+                              "framer, the main framer, undefined")))
+    for t in range(3):
+        out.append(Ob("relations/clones3/main=m%d" % t, h_clones, dict(m=3, others=False, main=t),
+                      budget=400 if quick else 900, per_path=60, hang_s=60, max_fail_keys=60,
+                      bounds=dict(cb, moot_framers=3, targets="every moot incl. itself (self-clones, 2- and 3-cycles)")))
+    if not quick:
+        for t in range(6):
+            out.append(Ob("relations/clones3full/main=%d" % t, h_clones, dict(m=3, others=True, main=t),
+                          budget=1500, per_path=60, hang_s=60, max_fail_keys=60,
+                          bounds=dict(cb, moot_framers=3, targets="every moot incl. itself, an aux framer, the main "
+                                      "framer, undefined")))
     return out
